@@ -51,7 +51,7 @@ def main():
     rest, hit = classify(failures, p.get("known", []))
     emit({"ok": not rest, "evaluations": sum(r[0] for r in res), "distinct_nontrivial": len(pool),
           "rule": "pool = parse of every accepted token sequence of <= %d tokens + %d odd hand-built trees; for each tree every "
-                  "single-point mutation (attribute, class, operand dropped / added / swapped, layout only, name only) and "
+                  "single-point mutation (attribute, class, operand dropped / added / swapped / moved into or out of the neighbouring operation with the reading order kept, layout only, name only) and "
                   "every node's clone; distinct = trees in the pool" % (p["max_tokens"], len(TR.odd_trees())),
           "bound": "token sequences <= %d; single-point mutations" % p["max_tokens"],
           "samples": [{"tree": repr(pool[len(pool) // 2])}], "failures": rest[:40], "known": hit})
